@@ -413,6 +413,7 @@ class Kernel(object):
         self.replay_decisions = None
         self.child_lock_depth = 0
         self.n_ticks = 0
+        self.recording = False
 
     # -- scenario life cycle --------------------------------------------------------
     def begin_scenario(self, root, trace_dir, systmp, name_seed=0, list_seed=0,
